@@ -187,6 +187,12 @@ class Shapes:
             for x in pos:
                 s = self.broadcast(s, self.of(x, where), where or name)
             return s
+        if name == 'arange' and len(pos) in (2, 3) and all(isinstance(x, Poly) for x in pos):
+            step = pos[2] if len(pos) == 3 else Poly.const(1)
+            if step.const_value() == 1:
+                return (pos[1] - pos[0],)
+            if step.const_value() == -1:
+                return (pos[0] - pos[1],)
         if name in ('fft.fftfreq', 'arange') and len(pos) == 1 and isinstance(pos[0], Poly):
             return (pos[0],)
         if name == 'linspace' and len(pos) >= 3 and isinstance(pos[2], Poly):
